@@ -187,7 +187,19 @@ class Singularity:
     @property
     def is_infinite(self):
         """Return True if the replacement is potentially infinite"""
-        return self.replacement.has(sp.oo) or self.replacement.has(-sp.oo)
+        return self.replacement.has(sp.oo, -sp.oo, sp.zoo)
+
+
+def two_sided_limit(expr: sp.Expr, symbol: sp.Symbol, value: sp.Expr) -> sp.Expr:
+    """The limit of an expression when the symbol approaches the value from
+    both sides.
+
+    Raises
+    ------
+    ValueError
+        If the limits from the left and from the right differ
+    """
+    return sp.limit(expr, symbol, value, dir="+-")
 
 
 def remove_singularities(expr: sp.Expr, singularities: frozenset[Singularity]) -> sp.Expr:
@@ -255,7 +267,7 @@ class Assignment(Atom):
     def singularities(self, lookup: dict[str, Atom]) -> frozenset[Singularity]:
         """Check if the expression has any singularities
         and return a list of singularities"""
-        from sympy import singularities, limit
+        from sympy import singularities
 
         singularity_list: set[Singularity] = set()
         if self.value is None:
@@ -290,15 +302,22 @@ class Assignment(Atom):
                 # 0.5*(x + 0.25)/(exp(0.5*(x + 0.25)) - 1) at x = -0.25 comes
                 # out as -oo instead of 1
                 value = sp.nsimplify(value, rational=True, tolerance=1e-12)
+                rational_expr = sp.nsimplify(self.expr, rational=True)
+                try:
+                    replacement = two_sided_limit(rational_expr, var.symbol, value)
+                    if replacement.has(sp.zoo):
+                        raise ValueError("Infinite limits with different signs")
+                except ValueError:
+                    # The limits from the left and from the right differ. Unless it
+                    # is a pole the singularity is not removable (a jump, e.g. abs(x)/x)
+                    replacement = sp.limit(rational_expr, var.symbol, value)
+                    if not replacement.has(sp.oo, -sp.oo, sp.zoo):
+                        continue
                 singularity_list.add(
                     Singularity(
                         symbol=var.symbol,
                         value=value,
-                        replacement=limit(
-                            sp.nsimplify(self.expr, rational=True),
-                            var.symbol,
-                            value,
-                        ),
+                        replacement=replacement,
                     )
                 )
         return frozenset(singularity_list)
